@@ -184,7 +184,16 @@ pub fn check(thorough: bool, _seed: u64) -> Check {
             } else if c.n <= 3 {
                 (0..c.n).map(|_| *cx.pick(alpha)).collect()
             } else {
-                match cx.choose(2) {
+                match cx.choose(3) {
+                    2 => {
+                        // every pair of positions holding an opposite / special pair (values that only go wrong together:
+                        // +inf with -inf, MAX with -MAX, -0.0 with +0.0, a subnormal with MAX)
+                        let i = cx.choose(c.n);
+                        let j = (i + 1 + cx.choose(c.n - 1)) % c.n;
+                        let pairs: &[(f64, f64)] = if binary { &[(f64::INFINITY, f64::NEG_INFINITY), (f64::MAX, -f64::MAX), (-0.0, 0.0), (5e-324, f64::MAX), (f64::INFINITY, f64::INFINITY)] } else { &[(f64::MAX, -f64::MAX), (-0.0, 0.0), (5e-324, f64::MAX)] };
+                        let (a, b) = pairs[cx.choose(pairs.len())];
+                        (0..c.n).map(|k| if k == i { a } else if k == j { b } else { BG1[k % 4] * (1.0 + (k / 4) as f64) }).collect()
+                    }
                     0 => {
                         // every position swept through the alphabet against two backgrounds
                         let bg = if cx.flag() { &BG2 } else { &BG1 };
@@ -210,7 +219,7 @@ pub fn check(thorough: bool, _seed: u64) -> Check {
         }),
         classes: FORMATS.iter().map(|f| (*f, true)).collect(),
         bounds: json!({"types": "every serializable type (list under serde_types); Segment/Piecewise over Poly0, Poly3, Poly8, Log<Poly2>, IntOfLog<Poly1>, IntOfLogPoly4 with 0..4 segments",
-            "numbers": "alphabet {whole numbers at the integer-type boundaries (255,256,-128,-129,65535,65536,-32769,2^32-1,2^32,-2^31,-2^31-1,-3e9,-(2^32-1),2^53,-2^63,2^64), 0.0,-0.0,5e-324,-2^-1022,1,succ(1),0.1,-1/3,1e300,MAX,-MAX, and the f32/f16-exact doubles 0.1f32,2^30,2^-100,65504,2^-24,f32::MAX,f32 min subnormal,2^24,-0.333251953125} (+-inf added for CBOR): full product for <=3 numbers; otherwise every position swept through the alphabet against two backgrounds, plus the cube over {-0.0,5e-324,MAX} on the first 8 (10 thorough) positions",
+            "numbers": "alphabet {whole numbers at the integer-type boundaries (255,256,-128,-129,65535,65536,-32769,2^32-1,2^32,-2^31,-2^31-1,-3e9,-(2^32-1),2^53,-2^63,2^64), 0.0,-0.0,5e-324,-2^-1022,1,succ(1),0.1,-1/3,1e300,MAX,-MAX, and the f32/f16-exact doubles 0.1f32,2^30,2^-100,65504,2^-24,f32::MAX,f32 min subnormal,2^24,-0.333251953125} (+-inf added for CBOR): full product for <=3 numbers; otherwise every position swept through the alphabet against two backgrounds, plus the cube over {-0.0,5e-324,MAX} on the first 8 (10 thorough) positions, plus every ordered pair of positions holding (+inf,-inf), (MAX,-MAX), (-0.0,+0.0), (5e-324,MAX), (+inf,+inf) (infinite pairs for the binary formats)",
             "formats": FORMATS}),
     };
     // many segments (size thresholds of readers that pre-allocate / read in blocks)
